@@ -30,6 +30,12 @@ CHECKS = {
          "Generated histories of UpdateAdmin / AddHook / RemoveHook / UpdateMembers (cw4-group) and Bond / Unbond (cw4-stake) by admins, ex-admins and strangers with 0-3 hooks: membership (group), hook list and admin differ only after a successful call by the pre-call admin and never once the admin is cleared; every successful membership-changing call's Response.messages are decoded and composed per key (first old == pre weight, entries chain, last new == post weight), every changed address appears, each registered hook gets exactly one notification, removed hooks none.", "DESIGN.md section 4 / C14"),
  "C10": ("stake", "stateful property-based testing on a cw-multi-test chain with real bank / cw20 balances; stake-and-claim ledger as reference model",
          "Generated configurations (native or cw20 stake token, tokens_per_weight from 1 to > 2^64, min_bond, height- or time-based unbonding) and histories of bond / unbond / claim / foreign-token attempts / donations by three users funded up to 2^127 over block and time advances: after every call the contract's real balance must cover (equal, without donations) the sum of Staked plus unreleased Claims; a user's stake changes only by its own successful bond (+ exactly the funds moved) or unbond; foreign tokens never accepted; a paying Claim pays exactly the matured claims, never before unbond + period, and removes exactly those; Member is reported iff stake >= min_bond with weight == stake / tokens_per_weight computed in u128 (never wrapped); TotalWeight == sum of member weights.", "DESIGN.md section 4 / C10"),
+ "C11": ("ics20", "stateful property-based testing with fault injection on a cw-multi-test chain (real ibc_* entry points behind a sudo shim, recording IBC module); escrow ledger over real balances",
+         "Generated histories over 1-3 channels, two native and three cw20 tokens: transfers, incoming packets from a malicious counterparty (every denom form, amounts around and above the outstanding balance, invalid receivers, raw garbage), deliver / ack / timeout per sent packet in any order, payout and refund sub-calls failing on demand (blocked bank recipient, cw20 whose Transfer is switched off): after every op the contract's real holdings cover the sum over channels of the reported outstanding balance per token, and tokens paid out per (channel, token) never exceed tokens escrowed there; foreign / other-port / other-channel / excess packets and error acks move nothing.", "DESIGN.md section 4 / C11"),
+ "C12": ("ics20", "stateful property-based testing with fault injection and a fabricated-legacy-storage upgrade arm; accounting identity + ack<=>effect + structural packet comparison",
+         "As C11 with an honest counterparty model, governance changes mid-history and an upgrade arm (0.11.1 / 0.12.1 / 0.13.0 storage images with acked and in-flight sends and cw20 tokens possibly off the allow list, migrated first): outstanding == sent - failed/timed-out - redeemed per (channel, denom) after every op; every incoming packet is answered (never aborts); success ack => receiver got the full amount and the balance fell by it; error ack => every Channel response, all holdings and all user balances identical to before; each accepted transfer emits exactly one SendPacket whose JSON carries the escrowed amount (<= 2^64-1), denom, true sender, receiver, memo (absent when none) and timeout == block time + requested-or-default; refused transfers emit none and move nothing.", "DESIGN.md section 4 / C12"),
+ "C18": ("ics20", "stateful property-based testing; monotonicity invariants on allow list / admin / default gas limit and inspection of every payout sub-message's gas limit",
+         "Generated histories of Allow (new / raise / lower / limited->unlimited / unlimited->limited), UpdateAdmin, migrate, cw20 transfers and packets / acks / timeouts that trigger payouts, by governance, former governance and strangers: allow list and admin change only in successful calls of the pre-call governance address, the allowed set only grows, per-token limits never decrease (none = unlimited), the default is never unset, cw20 transfers are accepted only if allowed or a default exists, and every cw20 payout / refund sub-message logged by the shim carries the token's current limit or else the default (native payouts: none).", "DESIGN.md section 4 / C18"),
  "C13": ("cw20", "stateful property-based testing, minter/cap invariants after every call",
          "Generated histories weighted to Mint/Burn/UpdateMinter by minter, ex-minters and strangers with caps at initial supply -1/0/+1 and mint amounts at cap-supply(+1); invariants on supply, cap and minter identity after every call.", "DESIGN.md section 4 / C13"),
  "C20": ("page", "property-based testing of every list query: generated state sizes / deletions / limits / cursors, paged walk vs model key set and point queries",
@@ -41,6 +47,7 @@ CHECKS = {
 FAMILIES = {
  "cw3": ("harness/fam_cw3 (module multisig)", "proptest op-sequence generator + interpreter over cw3-fixed-multisig / cw3-flex-multisig + cw4-group + cw20-base + recorder contract on cw-multi-test"),
  "cw3lib": ("harness/fam_cw3 (module tally)", "proptest generator of (threshold, total, tally, expiry) + exact u128 model + completion enumeration over cw3::Proposal"),
+ "ics20": ("harness/fam_ics20", "proptest op-sequence generator + interpreter over cw20-ics20 (ibc_* entry points via sudo shim, reply, migrate) with recording IBC module, fault-injecting bank and cw20 on cw-multi-test"),
  "stake": ("harness/fam_stake", "proptest op-sequence generator + interpreter over cw4-stake with real cw20-base and bank module on cw-multi-test"),
  "cw4": ("harness/fam_cw4", "proptest block-structured history generator + interpreter over cw4-group / cw4-stake entry points (direct driver)"),
  "page": ("harness/fam_page", "proptest generator of (listing, size, deletions, limit, cursor) + paged-walk oracle over all list queries (direct driver; cw-multi-test for cw3-flex)"),
